@@ -13,7 +13,7 @@ from vf.props.c17 import dual_averaging_reference, pooled_reference
 
 ID = "C16"
 LEVEL = "exploration"
-BUDGET = {"quick": 192, "thorough": 3200}
+BUDGET = {"quick": 384, "thorough": 4800}
 MIN_NONTRIVIAL = {"quick": 200, "thorough": 2000}
 EXHAUSTIVE = True
 RULE = (
